@@ -662,9 +662,9 @@ pub fn dom_tree_atomic(scenario: &str) -> Outcome {
 // C12 / C14 after DOM edit histories (bounded stand-in material): navigational views agree; keys of attached nodes are
 // non-zero and pairwise distinct
 
-pub const EDIT_SCENARIOS: [&str; 12] = [
+pub const EDIT_SCENARIOS: [&str; 18] = [
     "move_within_parent_before", "move_within_parent_append", "move_between_parents", "remove_then_reinsert",
-    "remove_subtree_drop_then_set_attribute", "remove_middle_subtree_drop_then_set_attribute", "replace_child", "append_fragment_like_sequence", "split_text_then_move", "append_new_after_child_with_descendants", "set_attribute_on_element_with_children", "insert_new_before_first_child",
+    "remove_subtree_drop_then_set_attribute", "remove_middle_subtree_drop_then_set_attribute", "replace_child", "append_fragment_like_sequence", "split_text_then_move", "append_new_after_child_with_descendants", "set_attribute_on_element_with_children", "insert_new_before_first_child", "move_forward_within_parent", "move_before_own_next_sibling", "reappend_last_child_with_children", "move_out_of_detached_parent", "views_inside_removed_subtree", "append_child_to_element_with_late_namespace_declaration",
 ];
 
 pub fn dom_after_edits(scenario: &str, what: &str) -> Outcome {
@@ -759,6 +759,60 @@ pub fn dom_after_edits(scenario: &str, what: &str) -> Outcome {
             "set_attribute_on_element_with_children" => {
                 a.as_element().unwrap().set_attribute("k", "1").unwrap();
             }
+            "move_forward_within_parent" => {
+                r.insert_before(a.clone(), Some(&d)).unwrap();
+            }
+            "move_before_own_next_sibling" => {
+                r.insert_before(a.clone(), Some(&c)).unwrap();
+            }
+            "reappend_last_child_with_children" => {
+                r.append_child(d.clone()).unwrap();
+            }
+            "move_out_of_detached_parent" => {
+                // a parent that was created and never inserted must still know (and forget) its children
+                let p = doc.create_element("p").unwrap();
+                let t = doc.create_text_node("x");
+                p.append_child(t.as_node()).unwrap();
+                r.append_child(t.as_node()).unwrap();
+                if what == "views" {
+                    let mut bad = vec![];
+                    if p.child_nodes().length() != 0 {
+                        bad.push(format!("the detached parent still lists {} child(ren) after its child was moved away", p.child_nodes().length()));
+                    }
+                    views(&doc.as_node(), &mut bad);
+                    return format!("disagreements: {:?}", bad);
+                }
+            }
+            "views_inside_removed_subtree" => {
+                // a removed subtree is still a tree: its children name its root as parent
+                let gone = r.remove_child(&d).unwrap();
+                if what == "views" {
+                    let mut bad = vec![];
+                    views(&gone, &mut bad);
+                    views(&doc.as_node(), &mut bad);
+                    return format!("disagreements: {:?}", bad);
+                }
+            }
+            "append_child_to_element_with_late_namespace_declaration" => {
+                let (_, doc2) = xml_dom::XmlDocument::from_raw("<a x=\"1\" xmlns:p=\"urn:p\" />").unwrap();
+                let a2 = doc2.document_element().unwrap();
+                let c2 = doc2.create_element("c").unwrap();
+                a2.append_child(c2.as_node()).unwrap();
+                if what == "preorder" || what == "keys" {
+                    let mut all = vec![];
+                    keys(&doc2.as_node(), &mut all);
+                    // attributes among themselves are unordered: only element < attributes < children is demanded
+                    let el = all.iter().find(|v| v.0 == "a").map(|v| v.1).unwrap_or(0);
+                    let ch = all.iter().find(|v| v.0 == "c").map(|v| v.1).unwrap_or(0);
+                    let mut bad = vec![];
+                    for (n, k) in all.iter().filter(|v| v.0.starts_with('@')) {
+                        if !(el < *k && *k < ch) {
+                            bad.push(format!("{}={} is not between a={} and c={}", n, k, el, ch));
+                        }
+                    }
+                    return format!("disagreements: {:?}", bad);
+                }
+            }
             "insert_new_before_first_child" => {
                 let n = doc.create_element("n").unwrap();
                 r.insert_before(n.as_node(), Some(&a)).unwrap();
@@ -768,6 +822,11 @@ pub fn dom_after_edits(scenario: &str, what: &str) -> Outcome {
                 let t2 = t.split_text(0).unwrap();
                 r.append_child(t2.as_node()).unwrap();
             }
+        }
+        if what == "children" {
+            // the child list of the document element after the edit, as DOM Level 1 prescribes it
+            let names: Vec<String> = r.child_nodes().iter().map(|n| n.node_name()).collect();
+            return format!("children of r: {}", names.join(" "));
         }
         if what == "preorder" {
             // element, then its attributes, then its children: keys strictly increasing along that walk
@@ -797,7 +856,31 @@ pub fn dom_after_edits(scenario: &str, what: &str) -> Outcome {
             format!("disagreements: {:?}", bad)
         }
     });
-    Outcome { observed, expected: "disagreements: []".into(), note: scenario.to_string() }
+    let expected = if what == "children" {
+        format!("children of r: {}", match scenario {
+            "move_within_parent_before" => "d a c",
+            "move_within_parent_append" => "c d a",
+            "move_between_parents" => "c d",
+            "remove_then_reinsert" => "c a d",
+            "remove_subtree_drop_then_set_attribute" => "a c",
+            "remove_middle_subtree_drop_then_set_attribute" => "c d",
+            "replace_child" => "a n d",
+            "append_fragment_like_sequence" => "a c d",
+            "append_new_after_child_with_descendants" => "a c d n",
+            "set_attribute_on_element_with_children" => "a c d",
+            "insert_new_before_first_child" => "n a c d",
+            "move_forward_within_parent" => "c a d",
+            "move_before_own_next_sibling" => "a c d",
+            "reappend_last_child_with_children" => "a c d",
+            "move_out_of_detached_parent" => "a c d #text",
+            "views_inside_removed_subtree" => "a c",
+            "append_child_to_element_with_late_namespace_declaration" => "a c d",
+            _ => "a c d #text",
+        })
+    } else {
+        "disagreements: []".to_string()
+    };
+    Outcome { observed, expected, note: scenario.to_string() }
 }
 
 pub fn f64_grid() -> Vec<String> {
